@@ -95,6 +95,67 @@ Theorem C20_strict_complete_volumes : forall smax recs Gs T idx,
 Proof. exact strict_complete_volumes. Qed.
 Print Assumptions C20_strict_complete_volumes.
 
+(* ... and that shape is DERIVED for a recording whose label groups are complete.  `keyed smax recs`
+   is a condition on the record list alone: every key tuple is slice number :: label keys (slice =
+   least significant sort key), all of one length, slice numbers within 1..slice_max, and every label
+   that occurs occurs with every slice number 1..slice_max.  Then the key-sorted list is the
+   concatenation of its label groups (`groups`: the maximal runs of equal label), each holding
+   slices 1..slice_max in order and one label only. *)
+Theorem C20_labelled_blocks : forall smax recs,
+  keyed smax recs -> NoDup (map keys recs) ->
+  let Gs := groups (length (stage1 recs)) (stage1 recs) in
+  stage1 recs = concat Gs /\ Forall (complete_group smax) Gs /\ Forall one_label Gs.
+Proof. exact labelled_blocks. Qed.
+Print Assumptions C20_labelled_blocks.
+
+(* so, speaking about `recs` only: the strict order returns exactly the volumes by label *)
+Theorem C20_strict_labelled_volumes : forall smax recs idx,
+  keyed smax recs -> NoDup (map keys recs) -> recs <> [] -> 1 <= smax ->
+  sorted_slice_indices true smax recs = Some idx ->
+  let Gs := groups (length (stage1 recs)) (stage1 recs) in
+  select dummy idx recs = concat Gs /\ Permutation (concat Gs) recs /\
+  Forall (complete_group smax) Gs /\ Forall one_label Gs.
+Proof. exact strict_labelled_volumes. Qed.
+Print Assumptions C20_strict_labelled_volumes.
+
+(* END TO END: a strict load of ANY permutation recs' of such a recording that succeeds returns
+   exactly the recording's volumes by label (Gs depends on recs only), every volume with slices
+   1..slice_max in order, every output slice showing its record's pixels with that record's own
+   slope and intercept, for both scaling conventions *)
+Theorem C20_strict_load_by_label : forall fone fdiv fmul permit fp expd smax nlab recs recs' idx o,
+  Permutation recs recs' -> keyed smax recs -> NoDup (map keys recs) -> recs <> [] -> 1 <= smax ->
+  load fone fdiv fmul true permit fp expd smax nlab recs' = Ok (idx, o) ->
+  let Gs := groups (length (stage1 recs)) (stage1 recs) in
+  Permutation (concat Gs) recs /\ Forall (complete_group smax) Gs /\ Forall one_label Gs /\
+  select dummy idx recs' = concat Gs /\
+  o_payload o = map pid (concat Gs) /\
+  o_slope o = map (slope_of fone fdiv fp) (concat Gs) /\
+  o_inter o = map (inter_of fdiv fmul fp) (concat Gs).
+Proof. exact strict_load_by_label. Qed.
+Print Assumptions C20_strict_load_by_label.
+
+Example C20_keyed_nonvacuous :
+  let recs := [mkRec [2;2] 2 3 40 41 42 [2;2] [2]; mkRec [2;1] 2 1 20 21 22 [2;1] [1];
+               mkRec [1;2] 1 2 30 31 32 [1;2] [2]; mkRec [1;1] 1 0 10 11 12 [1;1] [1]] in
+  keyed 2 recs /\ NoDup (map keys recs) /\
+  map (map pid) (groups (length (stage1 recs)) (stage1 recs)) = [[0; 1]; [2; 3]].
+Proof.
+  cbv zeta. split; [|split; [repeat constructor; cbn; intuition discriminate|vm_compute; reflexivity]].
+  split.
+  - intros r H. cbn in H. repeat (destruct H as [<-|H]; [reflexivity|]). destruct H.
+  - intros a b Ha Hb. cbn in Ha, Hb.
+    repeat (destruct Ha as [<-|Ha]; [repeat (destruct Hb as [<-|Hb]; [reflexivity|]); destruct Hb|]). destruct Ha.
+  - intros r H. cbn in H. repeat (destruct H as [<-|H]; [cbn; lia|]). destruct H.
+  - intros r s H Hs. assert (Es : s = 1 \/ s = 2) by lia. cbn in H.
+    repeat (destruct H as [<-|H];
+            [destruct Es as [->| ->];
+             solve [eexists; split; [left; reflexivity|split; reflexivity]
+                   |eexists; split; [right; left; reflexivity|split; reflexivity]
+                   |eexists; split; [right; right; left; reflexivity|split; reflexivity]
+                   |eexists; split; [right; right; right; left; reflexivity|split; reflexivity]]|]).
+    destruct H.
+Qed.
+
 (* Without that shape of the key order the label-level statement fails:
    FULL label-level statement of "exactly the complete volumes are returned" for the strict
    order: every output volume (n_slices consecutive output slices) consists of records that
